@@ -105,6 +105,15 @@ func loadSpecs() map[string]*PropSpec {
 	return specs
 }
 
+func sortedSpecKeys(m map[string]*PropSpec) []string {
+	ks := make([]string, 0, len(m))
+	for k := range m {
+		ks = append(ks, k)
+	}
+	sort.Strings(ks)
+	return ks
+}
+
 func fatal(err error) {
 	fmt.Fprintln(os.Stderr, "verif:", err)
 	os.Exit(2)
@@ -251,7 +260,12 @@ func cmdCheck(args []string) int {
 	}
 	os.MkdirAll(filepath.Join(scratch, "gen"), 0o755)
 	var genErr error
-	for _, g := range ps.Gen {
+	// every generated file is needed whenever its package is compiled, so generate all of them
+	var allGen []GenSpec
+	for _, k := range sortedSpecKeys(specs) {
+		allGen = append(allGen, specs[k].Gen...)
+	}
+	for _, g := range allGen {
 		virt, real, err := generate(g, filepath.Join(scratch, "gen"))
 		if err != nil {
 			genErr = err
@@ -861,12 +875,22 @@ func cmdReplay(args []string) int {
 	if hs == nil {
 		fatal(fmt.Errorf("harness %s not registered", w.Harness))
 	}
+	scratch, _ := os.MkdirTemp("", "verif-replay-")
+	defer os.RemoveAll(scratch)
+	os.MkdirAll(filepath.Join(scratch, "gen"), 0o755)
+	for _, k := range sortedSpecKeys(specs) {
+		for _, g := range specs[k].Gen {
+			virt, real, err := generate(g, filepath.Join(scratch, "gen"))
+			if err != nil {
+				fatal(err)
+			}
+			extraOverlay[virt] = real
+		}
+	}
 	_, byDir, err := loadProgram([]string{hs.Pkg})
 	if err != nil {
 		fatal(err)
 	}
-	scratch, _ := os.MkdirTemp("", "verif-replay-")
-	defer os.RemoveAll(scratch)
 	os.WriteFile(filepath.Join(scratch, filepath.Base(args[0])), raw, 0o644)
 	t := hs.ReplayTimeoutS
 	if t == 0 {
